@@ -21,6 +21,7 @@ const (
 	planBuiltin
 	planContract
 	planInline
+	planClosureSplit
 )
 
 type callPlan struct {
@@ -34,6 +35,8 @@ type callPlan struct {
 	bindings []*Val
 	sig      *types.Signature
 	recvName string
+	cands    []*ssa.Function
+	closed   bool
 }
 
 // packages whose functions are assumed to have no effect on modelled state (trusted).
@@ -138,6 +141,18 @@ func (t *Trans) planCall(f *frame, c *ssa.CallCommon) callPlan {
 		}
 	}
 	if fn == nil {
+		// function value loaded from a struct field: closed set of candidate literals (flow analysis)
+		if ld, ok := c.Value.(*ssa.UnOp); ok && ld.Op == token.MUL {
+			if fa, ok := ld.X.(*ssa.FieldAddr); ok {
+				if _, T, ok := isStructPtr(fa.X.Type()); ok {
+					fld := T.Underlying().(*types.Struct).Field(fa.Field)
+					cands, closed := t.P.fieldClosureCandidates(T, fld.Name())
+					if len(cands) > 0 && len(cands) <= 6 {
+						return callPlan{kind: planClosureSplit, name: "closure in field " + fld.Name(), cands: cands, closed: closed, sig: c.Signature()}
+					}
+				}
+			}
+		}
 		return callPlan{kind: planHavoc, name: "dynamic call"}
 	}
 	key := FnKey(fn)
@@ -294,6 +309,8 @@ func (f *frame) call0(res ssa.Value, c *ssa.CallCommon, st *State, cur string) (
 		return f.builtin(res, plan.builtin, c, st, cur)
 	case planContract:
 		return f.contractCall(res, plan, c, st, cur)
+	case planClosureSplit:
+		return f.closureSplit(res, plan, c, st, cur)
 	case planInline:
 		// recursion guard
 		for _, s := range inlineStack {
@@ -324,6 +341,86 @@ func (f *frame) call0(res ssa.Value, c *ssa.CallCommon, st *State, cur string) (
 	cur = f.applyEffects(eff, st, cur, plan.name)
 	setRes(freshResults(sig, false))
 	return cur, nil
+}
+
+// closureSplit: call of a function value whose possible targets are known: one branch per candidate literal.
+func (f *frame) closureSplit(res ssa.Value, plan callPlan, c *ssa.CallCommon, st *State, cur string) (string, error) {
+	t := f.t
+	B := t.B
+	v := f.termOf(c.Value)
+	f.safetyObl("nil", exprText(f, c.Value)+"()", cur, fmt.Sprintf("(not (= %s 0))", v), c.Pos())
+	cur = and(cur, fmt.Sprintf("(not (= %s 0))", v))
+	cf := B.declFun("closure_fn", []string{"Int"}, "Int")
+	var es []edge
+	var resTerms []string
+	var none []string
+	for _, fn := range plan.cands {
+		is := fmt.Sprintf("(= (%s %s) %s)", cf, v, t.closureID(fn))
+		none = append(none, not(is))
+		stB := st.clone()
+		curB := B.define("closurecase", "Bool", and(cur, is))
+		p2 := callPlan{kind: planInline, name: FnKey(fn), callee: fn, sig: fn.Signature}
+		for i, fv := range fn.FreeVars {
+			bf := B.declFun(fmt.Sprintf("closure_bind:%s:%d", FnKey(fn), i), []string{"Int"}, "Int")
+			term := fmt.Sprintf("(%s %s)", bf, v)
+			bv := &Val{term: term}
+			if pt, ok := fv.Type().Underlying().(*types.Pointer); ok {
+				if _, isS := pt.Elem().Underlying().(*types.Struct); !isS {
+					bv = &Val{term: term, lv: &LVal{kind: lvCell, arr: cellArr(pt.Elem()), obj: term, typ: pt.Elem()}}
+				}
+			}
+			p2.bindings = append(p2.bindings, bv)
+		}
+		var out string
+		var err error
+		if len(fn.Blocks) > 0 && !hasLoopOrUnsupported(fn) && f.depth < 5 {
+			out, err = f.inline(res, p2, c, stB, curB)
+			if err != nil {
+				return cur, err
+			}
+		} else {
+			eff := newEffects()
+			if se := t.P.summaries(t.DB).fn[fn]; se != nil {
+				eff.merge(se)
+			} else {
+				eff.setAll("closure without summary")
+			}
+			out = f.applyEffects(eff, stB, curB, FnKey(fn))
+			if res != nil {
+				out = f.havocVal(res, stB, out)
+			}
+		}
+		es = append(es, edge{cond: B.define("closureret", "Bool", out), st: stB})
+		if res != nil {
+			resTerms = append(resTerms, f.termOf(res))
+		}
+	}
+	// any other target
+	other := and(cur, and(none...))
+	if plan.closed {
+		t.trust("function values stored in a struct field are those assigned to it in the loaded program (closed world): " + plan.name)
+	} else {
+		stO := st.clone()
+		curO := t.havocAll(stO, B.define("closureother", "Bool", other), false)
+		if res != nil {
+			curO = f.havocVal(res, stO, curO)
+			resTerms = append(resTerms, f.termOf(res))
+		}
+		es = append(es, edge{cond: B.define("closureret", "Bool", curO), st: stO})
+	}
+	cond, merged := f.mergeEdges(es)
+	merged.defers, merged.visited = st.defers, st.visited
+	*st = *merged
+	if res != nil && len(resTerms) > 0 {
+		if _, isTuple := res.Type().(*types.Tuple); !isTuple {
+			outT := resTerms[len(resTerms)-1]
+			for i := len(resTerms) - 2; i >= 0; i-- {
+				outT = ite(es[i].cond, resTerms[i], outT)
+			}
+			f.vals[res] = &Val{term: B.define(f.vname(res), B.sortOf(res.Type()), outT)}
+		}
+	}
+	return cond, nil
 }
 
 // applyEffects havocs what an effect summary says may change.
